@@ -118,10 +118,15 @@ def gen_combinator_design(rng, cfg, tier, shape=None):
     if shape == "repeat":
         pool = basics + (derived if cfg.get("cross_derived") and rng.random() < 0.5 else [])
         crossing = rng.sample(pool, rng.randint(1, min(2, len(pool))))
-        while size_of(crossing) > 4 and len(crossing) > 1:
+        long_rep = rng.random() < 0.12          # a repetition long enough for runs of three and more (5-6 trials)
+        while size_of(crossing) > (6 if long_rep else 4) and len(crossing) > 1:
             crossing.pop()
         s = size_of(crossing)
         inner_cons = cons(rng.choice([0, 1, 1, 2]), SCOPED_KINDS, s)
+        if long_rep and s >= 5:
+            tf = rng.choice(basics)
+            inner_cons.append({"id": "clr", "kind": rng.choice(["atleast", "atleast", "exactlyrow"]), "k": 3,
+                               "target": [tf, rng.choice(fb[tf]["levels"])[0]], "spelling": "tuple"})
         if rng.random() < 0.15:
             inner_cons.append({"id": "mi", "kind": "mintrials", "n": rng.randint(1, 2 * s)})
         inner = _cross(ids, crossing, inner_cons)
